@@ -10,6 +10,7 @@ package c18
 
 import (
 	"fmt"
+	"math/big"
 	"reflect"
 	"runtime"
 	"sync"
@@ -21,6 +22,7 @@ import (
 	"verif/harness/arith"
 	"verif/harness/core"
 	"verif/harness/gen"
+	"verif/harness/ref"
 )
 
 type Operand struct {
@@ -95,10 +97,35 @@ func genCase(t *rapid.T) Case {
 		}
 		c.Pool = append(c.Pool, o)
 	}
+	// The same value written twice, the second time 129..400 places finer (or one unit off):
+	// comparing the two has to rescale through a power of ten beyond the 128-entry table. Both
+	// orders are then requested from several goroutines at once.
+	samePair := -1
+	if gen.Pick(t, 3, "samepair") == 0 {
+		a := core.Dec{Coeff: gen.Digits(t, 30, "spc"), Exp: int32(rapid.IntRange(-20, 20).Draw(t, "spe")), Neg: rapid.Bool().Draw(t, "spn")}
+		if a.Coeff == "0" {
+			a.Coeff = "7"
+		}
+		j := rapid.IntRange(129, 400).Draw(t, "spj")
+		v := a.Big()
+		v.Mul(v, ref.Pow10(int64(j)))
+		v.Add(v, big.NewInt(int64(rapid.IntRange(-1, 1).Draw(t, "spd"))))
+		b := core.Dec{Coeff: v.String(), Exp: a.Exp - int32(j), Neg: a.Neg}
+		samePair = len(c.Pool)
+		c.Pool = append(c.Pool, Operand{D: a}, Operand{D: b})
+		np += 2
+	}
 	ni := rapid.IntRange(4, 24).Draw(t, "nitems")
 	for i := 0; i < ni; i++ {
 		it := Item{Op: opsList[gen.Pick(t, len(opsList), "op")], Ctx: gen.Pick(t, nctx, "ictx"), X: gen.Pick(t, np, "ix"), Y: gen.Pick(t, np, "iy")}
 		it.QExp = int32(rapid.IntRange(-6, 6).Draw(t, "q"))
+		if samePair >= 0 && gen.Pick(t, 3, "usepair") == 0 {
+			it.Op = []string{"r.cmp", "r.cmptotal", "cmp"}[gen.Pick(t, 3, "pairop")]
+			it.X, it.Y = samePair, samePair+1
+			if rapid.Bool().Draw(t, "pairswap") {
+				it.X, it.Y = it.Y, it.X
+			}
+		}
 		c.Items = append(c.Items, it)
 	}
 	c.G = []int{2, 4, 8, 16}[gen.Pick(t, 4, "g")]
